@@ -254,7 +254,7 @@ def discovery_family(tier):
     H = lambda own, helper: dict(fail=False, classes=list(own), helper=list(helper))  # noqa: E731
     fam += [[H([], [1])], [H([], [2])], [H([3], [2])], [H([], [1, 4])], [H([1], [1])], [H([], [5])], [H([], [7])], [M(1), H([], [3])], [H([], [3]), M(2)], [H([], [1]), H([], [3])]]
     if tier == "thorough":
-        fam += [[a, b] for a in one2 for b in one2 if len(a["classes"]) + len(b["classes"]) > 2]
+        fam += [[a, b] for a in one2 for b in one1 if len(a["classes"]) == 2]
         small = [m for m in one1 if m["fail"] or not m["classes"] or m["classes"][0] in (1, 2, 3, 7)]
         fam += [[a, b, c] for a in small for b in small for c in small]
     return fam
@@ -536,12 +536,12 @@ def main(tier, seed):
     for root in life_roots():
         life_items.append(dict(sel=[None, None], nops=nops, roots=[root]))
     # selection pass: several whole periods with selection edits in between (restricted alphabet, deeper)
-    deep = 10 if tier == "quick" else 12
+    deep = 10 if tier == "quick" else 11
     m0 = life_menu([], restricted=True)
     for i, a in enumerate(m0):
         for j, b in enumerate(life_menu([a], restricted=True)):
             life_items.append(dict(sel="restricted", nops=deep, roots=[(i, j)]))
-    hs = [h for h in R.histories(4 if tier == "quick" else 6, alphabet="dat") if "a" in h]
+    hs = [h for h in R.histories(4 if tier == "quick" else 5, alphabet="dat") if "a" in h]
     sels = [("none", None), ("auto-selector", "other"), ("auto-selector", "bogus"), ("chooser", "other"), ("chooser", "None"), ("chooser", "plain")]
     run_items = [dict(histories=hs[i:i + 6], selections=sels) for i in range(0, len(hs), 6)]
     with core.WorkerPool() as pool:
@@ -551,7 +551,7 @@ def main(tier, seed):
             res.merge(d)
         for d in pool.run("mc.props.c14", "work_run", run_items, seed=seed):
             res.merge(d)
-    res.bounds.update(packages=len(fam), class_variants=len(VARIANTS), lifecycle_ops=nops, selection_pass_ops=deep, selections=[list(s) for s in SELECTIONS], run_history_depth=4 if tier == "quick" else 6)
+    res.bounds.update(packages=len(fam), class_variants=len(VARIANTS), lifecycle_ops=nops, selection_pass_ops=deep, selections=[list(s) for s in SELECTIONS], run_history_depth=4 if tier == "quick" else 5)
     rule = (
         "(A) every generated package in the family (1-2 modules [thorough: 3], 0-2 classes per module, 11 class variants over MODE_NAME / DISABLED (absent, True, explicitly False) / DEFAULT (absent, True, explicitly False) / "
         "raising constructor, modules that raise at import) x FMS attached or not, written to disk and loaded by the real AutonomousModeSelector; set-level "
